@@ -2,6 +2,7 @@ package main
 
 import (
 	"fmt"
+	"os"
 	"go/types"
 	"strings"
 
@@ -611,6 +612,12 @@ func (e *Engine) check(label string, c T) {
 	}
 	ob.Ms = (e.s.dur - q0).Milliseconds()
 	ob.Verdict = r
+	if e.dumpDir != "" && (r == "sat" || r == "unsat") && !c.isFalse() && e.dumped < e.dumpMax {
+		// standalone script of this obligation, for re-discharge by other solvers (tools/xcheck.py)
+		e.dumped++
+		name := fmt.Sprintf("%s/%s-%d-%d-%s.smt2", e.dumpDir, e.harness, os.Getpid(), e.dumped, r)
+		os.WriteFile(name, []byte("; "+e.harness+"/"+label+" expected "+r+"\n"+e.s.script(tnot(c))), 0o644)
+	}
 	switch r {
 	case "unsat":
 		return
